@@ -453,6 +453,7 @@ class Expander:
     def do_arms(self, directive, block):
         s, fn, rel, qual, rest = self.locate(directive)
         scrut = rest[0]
+        alias = rest[2] if len(rest) >= 3 and rest[1] == 'as' else None
         top, armspecs = self.parse_block(block)
         body = rsx.Body(s.body(fn))
         ms, mo, mc, arms = body.top_match(re.escape(scrut))
@@ -464,7 +465,7 @@ class Expander:
             suffix = suffix[1:].strip()
         used = set()
         dispatch = []
-        fname = qual.split('::')[1]
+        fname = alias or qual.split('::')[1]
         for pat, arm, is_block in arms:
             np = norm_pat(pat)
             if re.search(r'\bif\b', np):
@@ -513,7 +514,8 @@ class Expander:
         if missing:
             raise LostAnchor('%s: template arms not found in source: %s' % (qual, sorted(missing)))
         # dispatcher: verified against the shared contract
-        hdr, name = self.signature(fn['sig'], top)
+        hdr, name = self.signature(fn['sig'], top, alias)
+        name = alias or name
         params = [p.strip() for p in split_top(split_sig(' '.join(rsx.strip_comments(fn['sig']).split()))[2]) if p.strip()]
         argnames = []
         for p in params:
